@@ -172,7 +172,7 @@ def cases(tier):
     def G(name, pname, kw):
         out.append(Case(name, run_group, {"probs": [(pname, kw)]}, timeout_s=900))
     for dim in (1, 2):
-        for mkind in ("identity", "diag", "scaled", "dense", "trifact", "eig"):
+        for mkind in ("identity", "diag", "scaled", "dense", "trifact", "eig", "dense_inv", "diag_inv"):
             if dim == 1 and mkind == "eig":
                 continue
             G(f"momentum/euclid/{dim}/{mkind}", "momentum", {"kind": "euclid", "dim": dim, "mkind": mkind})
